@@ -186,7 +186,7 @@ func checkC20(c *Check) {
 	}
 	if fn := p.Fn("Server.ListPeers"); fn != nil {
 		apps := p.callsIn(fn, descIs("builtin:append"))
-		ok := len(apps) == 1 && inLoop(apps[0].Block())
+		ok := len(apps) == 1 && inLoop(apps[0].Block()) && everyIteration(apps[0].(ssa.Instruction))
 		if len(apps) == 0 {
 			// pre-sized result filled by a counter: one store into result[i]
 			// per entry, result made with len(registry)
@@ -399,6 +399,9 @@ func (c *Check) serveShutdown(rule string) {
 			if _, isGo := cl.(*ssa.Go); isGo {
 				okD = false
 			}
+			if !inLoop(cl.Block()) || !everyIteration(cl.(ssa.Instruction)) {
+				okD = false // every registered peer, not some
+			}
 		}
 		if okD {
 			// no Unlock between the Lock and the store of serving=false
@@ -444,7 +447,7 @@ func (c *Check) serveShutdown(rule string) {
 				paired := false
 				for _, cl := range p.callsIn(g, descIs(want)) {
 					ci := cl.(ssa.Instruction)
-					if _, isGo := cl.(*ssa.Go); isGo || !h[ci] || !inLoop(ci.Block()) {
+					if _, isGo := cl.(*ssa.Go); isGo || !h[ci] || !inLoop(ci.Block()) || !everyIteration(ci) {
 						continue
 					}
 					isUnlock := func(x ssa.Instruction) bool {
